@@ -271,6 +271,62 @@ def inline_all(tree):
 
 
 
+def _terminates(body):
+    return bool(body) and isinstance(body[-1], (ast.Return, ast.Continue, ast.Break, ast.Raise))
+
+
+class IfSwapper(ast.NodeTransformer):
+    """if c: A else: B   ->   if not c: B else: A      (B not an elif chain)"""
+
+    def visit_If(self, node):
+        self.generic_visit(node)
+        if node.orelse and not (len(node.orelse) == 1 and isinstance(node.orelse[0], ast.If)):
+            t = node.test.operand if isinstance(node.test, ast.UnaryOp) and isinstance(node.test.op, ast.Not) else ast.UnaryOp(op=ast.Not(), operand=node.test)
+            return ast.copy_location(ast.If(test=t, body=node.orelse, orelse=node.body), node)
+        return node
+
+
+def _blocks(tree):
+    for node in ast.walk(tree):
+        for fld in ("body", "orelse", "finalbody"):
+            b = getattr(node, fld, None)
+            if isinstance(b, list) and b and isinstance(b[0], ast.stmt):
+                yield node, fld, b
+
+
+def else_wrap(tree):
+    """if c: ...; return   followed by REST in the same block   ->   if c: ...; return  else: REST"""
+    n = 0
+    for node, fld, b in list(_blocks(tree)):
+        for i, st in enumerate(b):
+            if isinstance(st, ast.If) and not st.orelse and _terminates(st.body) and i + 1 < len(b) and not isinstance(node, (ast.Try,)):
+                st.orelse = b[i + 1:]
+                del b[i + 1:]
+                n += 1
+                break
+    return tree, n
+
+
+def un_else(tree):
+    """if c: ...; return  else: REST   ->   if c: ...; return   REST"""
+    n = 0
+    changed = True
+    while changed:
+        changed = False
+        for node, fld, b in list(_blocks(tree)):
+            for i, st in enumerate(b):
+                if isinstance(st, ast.If) and st.orelse and _terminates(st.body) and not (len(st.orelse) == 1 and isinstance(st.orelse[0], ast.If) and False):
+                    rest = st.orelse
+                    st.orelse = []
+                    b[i + 1:i + 1] = rest
+                    n += 1
+                    changed = True
+                    break
+            if changed:
+                break
+    return tree, n
+
+
 def transform(kind, src):
     if kind == "unparse":
         return ast.unparse(ast.parse(src)) + "\n", 1
@@ -288,6 +344,14 @@ def transform(kind, src):
         return extract_temps(src)
     if kind == "inline":
         return inline_temps(src)
+    if kind == "ifswap":
+        t = IfSwapper().visit(ast.parse(src))
+        ast.fix_missing_locations(t)
+        return ast.unparse(t) + "\n", 1
+    if kind in ("elsewrap", "unelse"):
+        t, n = (else_wrap if kind == "elsewrap" else un_else)(ast.parse(src))
+        ast.fix_missing_locations(t)
+        return ast.unparse(t) + "\n", n
     if kind == "inlineall":
         t = inline_all(ast.parse(src))
         ast.fix_missing_locations(t)
@@ -322,7 +386,7 @@ def run(args):
 
 
 def main():
-    kinds = ["unparse", "rename", "noop", "flipcmp", "extract", "inline", "inlineall"]
+    kinds = ["unparse", "rename", "noop", "flipcmp", "extract", "inline", "inlineall", "ifswap", "elsewrap", "unelse"]
     mods = []
     props = [p for p in PROPS if has_checker(p)]
     argv = sys.argv[1:]
